@@ -276,6 +276,12 @@
   (! (= (wgenNode hf PS A SK sko w i)
         (chain hf PS (store A 5 i) (prfArr hf (sub SK sko 32) (toByte32 i)) 0 (- w 1)))
      :pattern ((wgenNode hf PS A SK sko w i)))))
+; the generated WOTS+ public key as one byte string: byte p is byte p mod 32 of element p div 32
+(declare-fun wgenArr (Int (Array Int Int) (Array Int Int) (Array Int Int) Int Int) (Array Int Int))
+;@ needs wgenArr
+(assert (forall ((hf Int) (PS (Array Int Int)) (A (Array Int Int)) (SK (Array Int Int)) (sko Int) (w Int) (p Int))
+  (! (= (select (wgenArr hf PS A SK sko w) p) (select (wgenNode hf PS A SK sko w (div p 32)) (mod p 32)))
+     :pattern ((select (wgenArr hf PS A SK sko w) p)))))
 ; wshiftOf(lw) = 8 - (len2 * lw) % 8 for the three WOTS+ parameter sets (lw = 4, 2, 8 with len2 = 3, 5, 2)
 (declare-fun wshiftOf (Int) Int)
 ;@ needs wshiftOf
